@@ -95,6 +95,13 @@ func (c JSONMapCodec) Read(data []byte, ptr unsafe.Pointer, wt plenccore.WireTyp
 	if n == 0 {
 		return 0, nil
 	}
+	if n < 0 {
+		return 0, fmt.Errorf("bad count in map")
+	}
+	if count > uint64(len(data)-n) {
+		// Every entry takes at least one byte for its length
+		return 0, fmt.Errorf("map count %d exceeds the length of the data", count)
+	}
 	offset := n
 
 	m := *(*map[string]any)(ptr)
@@ -105,10 +112,13 @@ func (c JSONMapCodec) Read(data []byte, ptr unsafe.Pointer, wt plenccore.WireTyp
 
 	for ; count > 0; count-- {
 		l, n := plenccore.ReadVarUint(data[offset:])
-		if n < 0 {
+		if n <= 0 {
 			return 0, fmt.Errorf("bad length in map")
 		}
 		offset += n
+		if l > uint64(len(data)-offset) {
+			return 0, fmt.Errorf("length %d in map exceeds the length of the data", l)
+		}
 		var key string
 		var val any
 
@@ -173,6 +183,13 @@ func (c JSONArrayCodec) append(data []byte, ptr unsafe.Pointer) []byte {
 
 func (c JSONArrayCodec) Read(data []byte, ptr unsafe.Pointer, wt plenccore.WireType) (n int, err error) {
 	count, n := plenccore.ReadVarUint(data)
+	if n < 0 {
+		return 0, fmt.Errorf("bad count in array")
+	}
+	if count > uint64(len(data)-n) {
+		// Every entry takes at least one byte for its length
+		return 0, fmt.Errorf("array count %d exceeds the length of the data", count)
+	}
 	offset := n
 
 	a := *(*[]any)(ptr)
@@ -183,10 +200,13 @@ func (c JSONArrayCodec) Read(data []byte, ptr unsafe.Pointer, wt plenccore.WireT
 
 	for i := range a {
 		l, n := plenccore.ReadVarUint(data[offset:])
-		if n < 0 {
+		if n <= 0 {
 			return 0, fmt.Errorf("bad length in map")
 		}
 		offset += n
+		if l > uint64(len(data)-offset) {
+			return 0, fmt.Errorf("length %d in map exceeds the length of the data", l)
+		}
 
 		n, err := readJSONKV(data[offset:offset+int(l)], nil, &a[i])
 		if err != nil {
@@ -310,11 +330,19 @@ func readJSONKV(data []byte, key *string, val *any) (n int, err error) {
 		case 1:
 			// When using this for reading arrays we simply don't see this index
 			l, n := plenccore.ReadVarUint(data[offset:])
-			if n < 0 {
+			if n <= 0 {
 				return 0, fmt.Errorf("bad length on string field")
 			}
 			offset += n
+			if l > uint64(len(data)-offset) {
+				return 0, fmt.Errorf("length %d exceeds the length of the data", l)
+			}
 
+			if key == nil {
+				// Array entries have no key. Skip over one if it is present
+				offset += int(l)
+				continue
+			}
 			n, err := StringCodec{}.Read(data[offset:offset+int(l)], unsafe.Pointer(key), wt)
 			if err != nil {
 				return 0, err
@@ -331,10 +359,13 @@ func readJSONKV(data []byte, key *string, val *any) (n int, err error) {
 			switch jType {
 			case jsonTypeString:
 				l, n := plenccore.ReadVarUint(data[offset:])
-				if n < 0 {
+				if n <= 0 {
 					return 0, fmt.Errorf("bad length on string field")
 				}
 				offset += n
+				if l > uint64(len(data)-offset) {
+					return 0, fmt.Errorf("length %d exceeds the length of the data", l)
+				}
 				var v string
 				n, err := StringCodec{}.Read(data[offset:offset+int(l)], unsafe.Pointer(&v), wt)
 				if err != nil {
@@ -390,10 +421,13 @@ func readJSONKV(data []byte, key *string, val *any) (n int, err error) {
 
 			case jsonTypeNumber:
 				l, n := plenccore.ReadVarUint(data[offset:])
-				if n < 0 {
+				if n <= 0 {
 					return 0, fmt.Errorf("bad length on JSON number field")
 				}
 				offset += n
+				if l > uint64(len(data)-offset) {
+					return 0, fmt.Errorf("length %d exceeds the length of the data", l)
+				}
 				var v json.Number
 				n, err := StringCodec{}.Read(data[offset:offset+int(l)], unsafe.Pointer(&v), wt)
 				if err != nil {
